@@ -2,6 +2,10 @@
 //! `TimeZoneProvider` trait, and an independent reading of the same TZif files with the `tzif` crate's
 //! *parser only* (no lookup logic of src/tzdb.rs is used to produce the tables).
 //!
+//! Synthetic zones `synth/<n>` (`Tzdb.define`): bytes written by synth_tzif.rs are "the disk"; the table is the tzif crate's parse of
+//! those bytes, the lookups are the library's (`Tzif::from_bytes`, `Tzif::get`, `Tzif::v2_estimate_tz_pair`) behind replicas of the
+//! provider's two thin wrappers (the provider itself can only read /usr/share/zoneinfo).
+//!
 //! Time points are `{d, s, ns}` = epoch day, second of day, nanosecond of second (TLC ints are 32-bit).
 use crate::js::{self, int};
 use crate::proj::*;
@@ -89,20 +93,78 @@ pub fn iana_names() -> Vec<String> {
     v
 }
 
+// ---------- synthetic zones: the registered bytes are "the disk"; the library's lookups are called on its own reading of them ----------
+fn define(zone: &str, desc: &Value) -> Value {
+    use crate::synth_tzif::*;
+    let d = match desc_from_json(desc) { Ok(d) => d, Err(e) => return json!({"kind": "harness-error", "what": e}) };
+    let bytes = write_v2(&d);
+    // writer self-check: whenever the tzif crate's parser accepts the bytes it reads the described types and transitions
+    if let Some((ty, tr)) = parse_back(&bytes) { if ty != d.types || tr != d.trans { return json!({"kind": "harness-error", "what": "writer round trip"}); } }
+    let mut parsed = None;
+    let out = run(|| temporal_rs::tzdb::Tzif::from_bytes(&bytes), |t| { parsed = Some(t.clone()); json!(true) });
+    REG.with(|r| r.borrow_mut().insert(zone.to_string(), Entry { bytes, tzif: parsed }));
+    out
+}
+fn synth_table(zone: &str) -> Result<Value, String> {
+    use combine::Parser;
+    crate::synth_tzif::REG.with(|r| {
+        let r = r.borrow();
+        let e = r.get(zone).ok_or("not defined")?;
+        let (data, _) = tzif::parse::tzif::tzif().parse(&e.bytes[..]).map_err(|_| "rejected by the tzif crate's parser".to_string())?;
+        table_of(&data)
+    })
+}
+fn with_synth<T>(zone: &str, f: impl FnOnce(&temporal_rs::tzdb::Tzif) -> temporal_rs::TemporalResult<T>) -> temporal_rs::TemporalResult<T> {
+    crate::synth_tzif::REG.with(|r| match r.borrow().get(zone).and_then(|e| e.tzif.as_ref()) {
+        Some(t) => f(t),
+        None => Err(temporal_rs::TemporalError::general("no such synthetic zone / bytes rejected")),
+    })
+}
+fn synth_offset(zone: &str, t: &Value) -> Value {
+    let ns = point_ns(t);
+    // FsTzdbProvider::get_named_tz_offset_nanoseconds: floor to seconds, Tzif::get
+    run(|| with_synth(zone, |z| z.get(&tzif::data::time::Seconds(ns.div_euclid(1_000_000_000) as i64))), |o| json!({"off": int(o.offset)}))
+}
+fn synth_local(zone: &str, l: &Value) -> Value {
+    use temporal_rs::time::EpochNanoseconds;
+    use temporal_rs::tzdb::LocalTimeRecordResult as R;
+    // FsTzdbProvider::get_named_tz_epoch_nanoseconds, line by line
+    run(|| with_synth(zone, |z| {
+        // utc_epoch_nanoseconds_unchecked: the UTC reading of the wall-clock value, not range-checked as an instant
+        let dt = arg_iso_dt(l)?;
+        let epoch_nanos = crate::gen::days_from_civil(dt.date.year as i64, dt.date.month as i64, dt.date.day as i64) as i128 * 86_400_000_000_000
+            + ((dt.time.hour as i128 * 60 + dt.time.minute as i128) * 60 + dt.time.second as i128) * 1_000_000_000
+            + (dt.time.millisecond as i128 * 1000 + dt.time.microsecond as i128) * 1000 + dt.time.nanosecond as i128;
+        let seconds = epoch_nanos.div_euclid(1_000_000_000) as i64;
+        let sub = |off: i64| EpochNanoseconds::try_from(epoch_nanos - off as i128 * 1_000_000_000);
+        Ok(match z.v2_estimate_tz_pair(&tzif::data::time::Seconds(seconds))? {
+            R::Empty => Vec::new(),
+            R::Single(r) => vec![sub(r.offset)?],
+            R::Ambiguous { std, dst } => vec![sub(std.offset)?, sub(dst.offset)?],
+        })
+    // the order of the list is the wrapper's business (replicated above, not under test here): projected in ascending order
+    }), |v| { let mut ns: Vec<i128> = v.iter().map(|e| e.as_i128()).collect(); ns.sort();
+              Value::Array(ns.into_iter().map(ns_point).collect()) })
+}
+
 fn offset(zone: &str, t: &Value) -> Value {
+    if crate::synth_tzif::is_synth(zone) { return synth_offset(zone, t); }
     let ns = point_ns(t);
     PROV.with(|p| run(|| p.borrow().get_named_tz_offset_nanoseconds(zone, ns), |o| json!({"off": int(o.offset)})))
 }
 fn local(zone: &str, l: &Value) -> Value {
+    if crate::synth_tzif::is_synth(zone) { return synth_local(zone, l); }
     PROV.with(|p| run(|| p.borrow().get_named_tz_epoch_nanoseconds(zone, arg_iso_dt(l)?),
-                      // the answer is a set of instants: projected in ascending order
-                      |v| { let mut ns: Vec<i128> = v.iter().map(|e| e.as_i128()).collect(); ns.sort();
-                            Value::Array(ns.into_iter().map(ns_point).collect()) }))
+                      // projected in the order returned: the specification compares the set and asks for ascending order
+                      |v| Value::Array(v.iter().map(|e| ns_point(e.as_i128())).collect())))
 }
 
 pub fn exec(op: &str, a: &Value) -> Option<Value> {
     Some(match op {
         "Tzdb.fresh" => { fresh(); ok(json!(true)) }
+        "Tzdb.define" => define(js::s(a, "zone"), &a["desc"]),
+        "Tzdb.roundtrip" => match crate::synth_tzif::roundtrip_real(js::s(a, "zone")) { Ok(()) => ok(json!(true)), Err(e) => json!({"kind": "harness-error", "what": e}) },
+        "Tzdb.table" if crate::synth_tzif::is_synth(js::s(a, "zone")) => match synth_table(js::s(a, "zone")) { Ok(t) => ok(t), Err(_) => err("generic") },
         "Tzdb.table" => match read_table(js::s(a, "zone")) { Ok(t) => ok(t), Err(_) => err("generic") },
         "Tzdb.names" => ok(Value::Array(iana_names().iter().map(|n| p_chars(n)).collect())),
         "Tzdb.offset" => offset(js::s(a, "zone"), &a["t"]),
